@@ -46,36 +46,49 @@ Definition run_mbinull (p : profile) : list string :=
    op = AL [AN 0] new | AL [AN 1; AN i] next on i | AL [AN 2; AN i] clone of i *)
 Inductive iter_st := ItLive (nxt : N) | ItDead.   (* dead: a call on it panicked *)
 
-Fixpoint run_iter_ops (p : profile) (m : mem) (r : dref) (pool : list iter_st) (ops : list arg) : list string :=
+Fixpoint run_iter_ops (p : profile) (h : hkind) (m : mem) (b blen : N) (show : dref -> string)
+                      (pool : list iter_st) (ops : list arg) : list string :=
+  let upd i st := (firstn (N.to_nat i) pool ++ [st] ++ skipn (S (N.to_nat i)) pool)%list in
   match ops with
   | [] => []
-  | AL [AN 0] :: rest => line "new" (sN (len pool)) :: run_iter_ops p m r (pool ++ [ItLive 0])%list rest
+  | AL [AN 0] :: rest => line "new" (sN (len pool)) :: run_iter_ops p h m b blen show (pool ++ [ItLive 0])%list rest
   | AL [AN 2; AN i] :: rest =>
       match nth_error pool (N.to_nat i) with
-      | Some st => line "clone" (sN (len pool)) :: run_iter_ops p m r (pool ++ [st])%list rest
-      | None => line "clone" "skip" :: run_iter_ops p m r pool rest
+      | Some st => line "clone" (sN (len pool)) :: run_iter_ops p h m b blen show (pool ++ [st])%list rest
+      | None => line "clone" "skip" :: run_iter_ops p h m b blen show pool rest
       end
   | AL [AN 1; AN i] :: rest =>
       match nth_error pool (N.to_nat i) with
       | Some (ItLive nxt) =>
           (* a panic is caught by the caller: the iterator lives on with the offset next() left behind *)
-          let '(x, n') := tagiter_step p HTagH m (tags_b r) (tags_len r) nxt in
-          let upd st := (firstn (N.to_nat i) pool ++ [st] ++ skipn (S (N.to_nat i)) pool)%list in
+          let '(x, n') := tagiter_step p h m b blen nxt in
           match x with
-          | Val (Some t) => line "next" ("VAL some " ++ sTagLine m t) :: run_iter_ops p m r (upd (ItLive n')) rest
-          | Val None => line "next" "VAL none" :: run_iter_ops p m r (upd (ItLive n')) rest
-          | _ => line "next" (sRes (fun _ => "") x) :: run_iter_ops p m r (upd (ItLive n')) rest
+          | Val (Some t) => line "next" ("VAL some " ++ show t) :: run_iter_ops p h m b blen show (upd i (ItLive n')) rest
+          | Val None => line "next" "VAL none" :: run_iter_ops p h m b blen show (upd i (ItLive n')) rest
+          | _ => line "next" (sRes (fun _ => "") x) :: run_iter_ops p h m b blen show (upd i (ItLive n')) rest
           end
-      | _ => line "next" "skip" :: run_iter_ops p m r pool rest
+      | _ => line "next" "skip" :: run_iter_ops p h m b blen show pool rest
       end
-  | _ :: rest => line "op" "bad" :: run_iter_ops p m r pool rest
+  | AL [AN 3; AN i; AN k] :: rest =>
+      (* the provided nth(k) on iterator i, in whatever state earlier calls left it *)
+      match nth_error pool (N.to_nat i) with
+      | Some (ItLive nxt) =>
+          let '(x, n') := tagiter_nth_step p h m b blen nxt (N.to_nat k) in
+          match x with
+          | Val (Some t) => line "nth" ("VAL some " ++ show t) :: run_iter_ops p h m b blen show (upd i (ItLive n')) rest
+          | Val None => line "nth" "VAL none" :: run_iter_ops p h m b blen show (upd i (ItLive n')) rest
+          | _ => line "nth" (sRes (fun _ => "") x) :: run_iter_ops p h m b blen show (upd i (ItLive n')) rest
+          end
+      | _ => line "nth" "skip" :: run_iter_ops p h m b blen show pool rest
+      end
+  | _ :: rest => line "op" "bad" :: run_iter_ops p h m b blen show pool rest
   end.
 
 Definition run_iters (p : profile) (bs : list byte) (ops : list arg) : list string :=
   let m := {| m_base := 0; m_bytes := bs |} in
   let '(l, lines) := run_mbi_core p m in
   match l with
-  | Val r => (lines ++ run_iter_ops p m r [] ops)%list
+  | Val r => (lines ++ run_iter_ops p HTagH m (tags_b r) (tags_len r) (sTagLine m) [] ops)%list
   | _ => lines
   end.
 
